@@ -23,6 +23,8 @@ var c09Bad = []badLine{
 	{"  a b: 1,5", 1, "1,5"},
 	{"\tx: 1.2.3 ", 1, "1.2.3"},
 	{"  - y: 12kg", 1, "12kg"},
+	{"  \"white bread\":  2 slices", 1, "slices"},
+	{"  back\\slash:x", 0, ""},
 }
 
 // quotes: does msg quote the raw line and its 1-based number? (format-agnostic: the message must
@@ -99,7 +101,11 @@ func checkC09(w *Worker) {
 				if j > 0 {
 					nk = secondKinds // quick: the second planted line takes one shape of each kind
 				}
-				b := c09Bad[(x.Choose(nk, "input:bad-kind")*3)%len(c09Bad)]
+				bi := x.Choose(nk, "input:bad-kind")
+				if j > 0 && nk < len(c09Bad) {
+					bi = []int{0, 3, 7, 8}[bi%4] // one shape of each kind (and the quoted/backslash shapes in thorough)
+				}
+				b := c09Bad[bi]
 				pl = append(pl, planted{pos, b})
 				lo = pos
 			}
